@@ -1,24 +1,76 @@
-"""C24 - VSA evaluation of expressions over annotated variables over-approximates (bounded only)."""
+"""C24 - VSA evaluation of expressions over annotated variables over-approximates.
+Mixed: every operator wrapper / dispatch entry / query of BackendVSA is PROVED sound against the C21-C23 contracts of the abstract
+values it calls (lifting lemmas); the composition over Backend.convert's traversal is checked BOUNDED."""
 from vf.common import task
 
-LEVEL = "exploration"
-LEVEL_TEXT = ("Bounded stand-in, never counted as proved: the composition 'sound transfer functions => sound evaluation' is a structural induction "
-              "over Backend.convert's explicit-stack traversal that the contract engine cannot state, and the transfer functions themselves "
-              "carry the recorded C21/C22 findings.  Operation trees over strided-interval-annotated variables are evaluated by the real VSA "
-              "backend and compared with EVERY concrete assignment; a failure is attributed to the deepest operator at which containment breaks, "
-              "so the recorded strided-interval findings are recognised and anything else (add, sub, neg, not, unsigned comparisons, If joins, "
-              "annotation application) is reported.")
-TECHNIQUE = "bounded enumeration of operation trees and of all assignments against the real VSA backend (stand-in)"
+LEVEL = "other"
+LEVEL_TEXT = ("Mixed.  PROVED (contract-based, per operation): for every bit-vector/Boolean operation name of claripy.operations the real dispatch "
+              "of the VSA backend (tables built by the real BackendVSA.__init__, real Backend._call and its operator-module fallback, the real "
+              "wrapper, the real StridedInterval dunder methods) is executed on abstract operands with ARBITRARY member sets whose named "
+              "transfer functions are answered by the C21/C22 contract (gamma containment, exact queries), and z3 proves that the reference "
+              "SMT-LIB result of every member tuple is in gamma(result); likewise If (both sorts), the leaves BVV/BVS/BoolV, "
+              "apply_annotation (interval, region, uninitialized), the expression-level union/intersection/widen, the queries _eval/_min/_max/"
+              "_solution/_has_true/_has_false/_is_true/_is_false/_cardinality/_identical, and LightFrontend's eval/min/max/solution/"
+              "is_true/is_false/satisfiable on top of a contract of the backend.  The member sets are symbolic bit masks over all values of "
+              "the width, so each lemma holds for strided intervals, discrete sets and value-set regions alike.  BOUNDED (never counted as "
+              "proved): the composition 'sound wrappers => sound evaluation' over Backend.convert's explicit-stack traversal and excavate_ite "
+              "is exercised on operation trees over annotated variables against every concrete assignment.")
+EXPLANATION = ("proved: 36 dispatch lemmas + If + leaves + annotations + set operations + queries + LightFrontend, each modulo the C21-C23 "
+               "contracts; bounded: random operation trees (depth<=2) over 2 annotated variables of width 3-4, all assignments enumerated")
+TECHNIQUE = "contract-based deductive verification of the real BackendVSA wrappers against abstract-value contracts (pyvc + z3) + bounded tree enumeration for the composition"
 RULE = "random operation trees (depth<=2) over 2 annotated variables of width 3-4; all assignments enumerated; distinct = distinct expressions"
-FUNCTIONS = []
-TRUSTED = []
-ASSUMPTIONS = ["depth <= 2, two variables, widths 3 and 4", "division/remainder by an interval containing zero is exempt"]
+M = "vf.contracts.vsaops"
+FUNCTIONS = ["BackendVSA.__init__ (dispatch tables)", "Backend._call", "BackendVSA._op_add", "BackendVSA._op_sub", "BackendVSA._op_mul", "BackendVSA._op_or",
+             "BackendVSA._op_xor", "BackendVSA._op_and", "BackendVSA._op_mod", "BackendVSA.And", "BackendVSA.Or", "BackendVSA.Not", "BackendVSA.If",
+             "BackendVSA.ULT", "BackendVSA.ULE", "BackendVSA.UGT", "BackendVSA.UGE", "BackendVSA.SLT", "BackendVSA.SLE", "BackendVSA.SGT", "BackendVSA.SGE",
+             "normalize_arg_order", "BackendVSA.LShR", "BackendVSA.Concat", "BackendVSA.Extract", "BackendVSA.SignExt", "BackendVSA.ZeroExt", "BackendVSA.Reverse",
+             "BackendVSA.BVV", "BackendVSA.BVS", "BackendVSA.BoolV", "BackendVSA.apply_annotation", "BackendVSA.union", "BackendVSA.intersection", "BackendVSA.widen",
+             "BackendVSA._eval", "BackendVSA._min", "BackendVSA._max", "BackendVSA._solution", "BackendVSA._has_true", "BackendVSA._has_false",
+             "BackendVSA._is_true", "BackendVSA._is_false", "BackendVSA._cardinality", "BackendVSA._identical", "BackendVSA._convert",
+             "StridedInterval.__add__/__sub__/__mul__/__floordiv__/__truediv__/__neg__/__invert__/__or__/__and__/__xor__/__lshift__/__rshift__/__eq__/__ne__ (dunder -> named operation, incl. normalize_types)",
+             "BoolResult.__and__/__or__/__invert__/union/has_true/has_false/is_true/is_false",
+             "LightFrontend.eval", "LightFrontend.min", "LightFrontend.max", "LightFrontend.solution", "LightFrontend.is_true", "LightFrontend.is_false",
+             "LightFrontend.satisfiable", "LightFrontend.batch_eval"]
+TRUSTED = ["z3 4.13 (decides the VCs)", "CPython 3.12 executes the function bodies",
+           "ASSUMED callee contracts (vf/contracts/absval.py): the C21 transfer functions, C22 joins/meets/queries and C23 value-set operations satisfy "
+           "their property (that is what C21-C23 check; their recorded known findings are therefore NOT excluded here - the lemmas are 'modulo C21-C23')",
+           "reference semantics vf/contracts/sem.py (SMT-LIB)"]
+ASSUMPTIONS = ["widths 2 and 3 (8 for Reverse); variadic arity 2 and 3; extension by 0..2 bits; every Extract bound pair",
+               "structural induction from sound wrappers to Backend.convert's traversal is stated, not mechanised (bounded part exercises it)",
+               "depth <= 2, two variables, widths 3 and 4 in the bounded part", "division/remainder by an interval containing zero is exempt"]
 
 
 def tasks(tier, seed=0):
     from vf import common
-    kl = sorted({l for f in common.load_findings()["findings"] for l in f.get("vsa_labels", [])})
+    from vf.contracts import vsaops
+    R = "vf.contracts.vsaops:replay"
     out = []
+    ws = [2, 3]
+    for op in vsaops.bv_ops():
+        for w in ws:
+            ars = [2, 3] if op in vsaops.NARY or op in ("And", "Or", "Concat") else [2]
+            for ar in ars:
+                if ar == 3 and w == 3:
+                    continue
+                out.append(task(M, "ob_dispatch", f"vsa.dispatch.{op}/gamma@w{w}" + (f"x{ar}" if len(ars) > 1 else ""), ["C24"], replay=R, op=op, w=w, arity=ar, tier=tier))
+    for w in ws:
+        out.append(task(M, "ob_if", f"vsa.If/gamma@w{w}", ["C24"], replay=R, w=w, tier=tier))
+        for k in ("BVV", "BVS"):
+            out.append(task(M, "ob_leaf", f"vsa.{k}/gamma@w{w}", ["C24"], replay=R, what=k, w=w, tier=tier))
+        for k in ("si", "region", "uninit"):
+            out.append(task(M, "ob_annotation", f"vsa.apply_annotation[{k}]/gamma@w{w}", ["C24"], replay=R, what=k, w=w, tier=tier))
+        for q in ("eval1", "eval2", "eval5", "eval9", "min", "max", "solution", "cardinality", "identical"):
+            out.append(task(M, "ob_query", f"vsa._{q}/sound@w{w}", ["C24"], replay=R, q=q, w=w, tier=tier))
+        for op in ("union", "intersection", "widen"):
+            out.append(task(M, "ob_setop", f"vsa.{op}[expr]/gamma@w{w}", ["C24"], replay=R, op=op, w=w, tier=tier))
+    out.append(task(M, "ob_if_bool", "vsa.If[bool]/gamma", ["C24"], replay=R, tier=tier))
+    out.append(task(M, "ob_leaf", "vsa.BoolV/gamma", ["C24"], replay=R, what="BoolV", w=1, tier=tier))
+    for q in ("has_true", "has_false", "is_true", "is_false", "solution[bool]"):
+        out.append(task(M, "ob_query", f"vsa._{q}/sound", ["C24", "C10"], replay=R, q=q, w=1, tier=tier))
+    for m in vsaops.LIGHT_METHODS:
+        out.append(task(M, "ob_light", f"light.{m}/sound", ["C24"], method=m, tier=tier))
+    out.append(task(M, "ob_canary", "vsa.canaries/wrong-postconditions-fail", ["C24"], tier=tier))
+    kl = sorted({l for f in common.load_findings()["findings"] for l in f.get("vsa_labels", [])})
     for i in range(16 if tier == "quick" else 64):
         out.append(task("vf.bounded.vsa_trees", "run", f"vsa.trees/bounded#{i}", ["C24"], kind="bounded", replay="vf.bounded.vsa_trees:replay",
                         seed=seed * 1000 + i, w=3 if i % 2 == 0 else 4, n=150 if tier == "quick" else 1500, budget_s=40 if tier == "quick" else 500,
